@@ -67,7 +67,7 @@ def histories(chk, tier):
         hs += wcommon.gen_histories(chk, [1], [1, 2, 3, 4, 5], 1, 3)
         hs += wcommon.gen_histories(chk, [2, 3], [0, 1, 2], 2, 2, limit=3000)
         hs += wcommon.gen_histories(chk, [2, 3, 4, 5, 6, 7, 8], [0, 1, 2, 9, 17], 3, 3, nullmode="runs", anyorder=True,
-                                    simulate=200, depth=60, workers=8)
+                                    simulate=24, depth=60, workers=8)
     return hs
 
 
